@@ -28,7 +28,7 @@ IPS = ["127.0.0.1", "1.2.3.4", "255.255.255.255", "0.0.0.0", "1.2.3", "1.2.3.4.5
        # Unicode decimal digits in address position (full-width, Arabic-Indic, mixed), IPvFuture look-alikes
        "１２７.０.０.１", "192.168.1.１", "١٢٧.٠.٠.١", "1.2.3.４", "１.2.3.4", "٣", "1.2.3.4٣", "::１", "fe80::1%１",
        "va.gov", "v1.example.com", "vf.fe80", "V1.x"]
-NAMES = ["h", "example.com", "EXAMPLE.COM", "ExAmPlE.cOm", "a-b.c", "a_b", "h.", "a..b", ".a", "xn--bcher-kva.example", "XN--BCHER-KVA.EXAMPLE",
+NAMES = ["h", "example.com", "EXAMPLE.COM", "ExAmPlE.cOm", "WWW.café.com", "EXAMPLE.пример.рф", "bücher.Example.ORG", "Www.xn--caf-dma.COM", "a-b.c", "a_b", "h.", "a..b", ".a", "xn--bcher-kva.example", "XN--BCHER-KVA.EXAMPLE",
          "bücher.example", "BÜCHER.example", "例え.テスト", "ｅxample.com", "a。b", "Éx_.Com", "a／b", "a%41", "a%zz", "a%4", "%", "a%2Fb", "~x", "!$&'()*+,;=",
          "a b", "a/b", "a?b", "a#b", "a@b", "a:b", "a[b", "a]b", "a\\b", "a\"b", "a<b>", "a^b", "a`b", "a{b}", "a|b", "\x00", "a\tb", "a\nb",
          "x" * 64 + ".com", "a." * 100 + "b", "1", "9a", "a9", "123.456", "\u00df.de", "\u200dx", "x\u00ad", "\u0130"]
